@@ -17,25 +17,25 @@ import (
 const modPath = "github.com/evanw/esbuild"
 
 type Program struct {
-	Repo            string
-	Fset            *token.FileSet
-	Prog            *ssa.Program
-	Pkgs            map[string]*ssa.Package // by import path
-	TPkgs           map[string]*packages.Package
-	AllFuncs        map[*ssa.Function]bool
-	CS              *ContractSet
-	escaped         map[string]bool // struct-field key -> address escapes
-	modsets         map[*ssa.Function]*ModSet
-	LoadSecs        float64
-	skipFresh       bool
-	UsedCHA         bool
-	chaCache        map[string][]*ssa.Function
-	ownAll          map[*ssa.Function]bool
-	modNames        map[string]bool
-	UsedPureDynamic map[string]bool
+	Repo             string
+	Fset             *token.FileSet
+	Prog             *ssa.Program
+	Pkgs             map[string]*ssa.Package // by import path
+	TPkgs            map[string]*packages.Package
+	AllFuncs         map[*ssa.Function]bool
+	CS               *ContractSet
+	escaped          map[string]bool // struct-field key -> address escapes
+	modsets          map[*ssa.Function]*ModSet
+	LoadSecs         float64
+	skipFresh        bool
+	UsedCHA          bool
+	chaCache         map[string][]*ssa.Function
+	ownAll           map[*ssa.Function]bool
+	modNames         map[string]bool
+	UsedPureDynamic  map[string]bool
 	constGlobals     map[*ssa.Global]*constGlobalInfo
 	constGlobalStale []string
-	whyAll          map[*ssa.Function]string
+	whyAll           map[*ssa.Function]string
 }
 
 func LoadProgram(repo string, patterns []string) (*Program, error) {
